@@ -19,7 +19,12 @@
 //     independent of the first history) reaches the same database and table (the marker written
 //     when the request was recorded is read back);
 //   - Verify() of a producer with a (mutated) table, right after the restart and at the end, fails
-//     exactly when some currently recorded request is now routed to a different type, name or table.
+//     exactly when some currently recorded request is now routed to a different type, name or table;
+//   - a producer routes by the configuration it was constructed with: at a drawn point of either
+//     history the caller changes, in place, the map object it had passed to NewProducer (NewProducer
+//     copies the routing table; the producers map and the records key are shared and not touched);
+//     RouteOf of the running producer must not change and the history continues against the model
+//     of the original table.
 package c26
 
 import (
@@ -517,10 +522,19 @@ func (c *caseInfo) String() string {
 // construct builds n producers from fresh maps of the same table. All constructions must agree
 // on success/failure.
 func construct(t *rapid.T, c *caseInfo, e *env, ts tableSpec, n int) []*multidb.Producer {
+	ps, _ := constructKeep(t, c, e, ts, n)
+	return ps
+}
+
+// constructKeep also returns, per producer, the map object that was handed to NewProducer (the
+// caller's own configuration object, which the caller is free to change afterwards).
+func constructKeep(t *rapid.T, c *caseInfo, e *env, ts tableSpec, n int) ([]*multidb.Producer, []map[string]multidb.Route) {
 	var res []*multidb.Producer
+	var maps []map[string]multidb.Route
 	var firstErr error
 	for i := 0; i < n; i++ {
-		p, err := multidb.NewProducer(e.producers(), ts.toMap(), recordsKey)
+		mp := ts.toMap()
+		p, err := multidb.NewProducer(e.producers(), mp, recordsKey)
 		if i == 0 {
 			firstErr = err
 		}
@@ -529,9 +543,10 @@ func construct(t *rapid.T, c *caseInfo, e *env, ts tableSpec, n int) []*multidb.
 		}
 		if err == nil {
 			res = append(res, p)
+			maps = append(maps, mp)
 		}
 	}
-	return res
+	return res, maps
 }
 
 // checkRouteDeterminism compares RouteOf over all producers and over repeated calls.
@@ -663,7 +678,7 @@ func routingProperty(t *rapid.T, wild bool, st *stats.Collector) {
 	nontrivial := false
 
 	// ---- 1. construction and route determinism
-	ps := construct(t, c, e, c.table, nFresh)
+	ps, psMaps := constructKeep(t, c, e, c.table, nFresh)
 	if len(ps) == 0 {
 		st.Case(stats.Hash(c.table.String(), fmtSteps(c.steps), fmtSteps(c.steps2)), false, "table_rejected")
 		return
@@ -818,13 +833,92 @@ func routingProperty(t *rapid.T, wild bool, st *stats.Collector) {
 				h.loc.Type, h.loc.Name, h.req, phase, crashlog.FormatDB(raw), c)
 		}
 	}
-	runSteps := func(steps []step, phase string) {
-		for _, s := range steps {
+	// mutateCallerMap changes, in place, the map object that was handed to NewProducer when the current
+	// producer was built (NewProducer works on its own copy of the routing table: the running producer
+	// must keep routing by the configuration it was constructed with). Only the routing-table map is
+	// touched: the producers map and the records key are shared with the caller by the original, too.
+	var callerMapMoves, callerMapInvalid, callerMapExactOnly bool
+	mutateCallerMap := func(mp map[string]multidb.Route, phase string) {
+		ts2 := c.table
+		for i := rapid.IntRange(1, 3).Draw(t, "callerMapMutations"); i > 0; i-- {
+			ts2 = mutateTable(t, ts2, m, true)
+		}
+		switch rapid.SampledFrom([]string{"apply", "apply", "apply", "apply", "retarget_all", "clear"}).Draw(t, "callerMapMode") {
+		case "clear":
+			ts2 = tableSpec{}
+		case "retarget_all":
+			ts2 = append(tableSpec{}, ts2...)
+			for i := range ts2 {
+				r := ts2[i].Route
+				if r.Type == "T1" {
+					r.Type = "T2"
+				} else {
+					r.Type = "T1"
+				}
+				r.Name += "z"
+				r.Table += "Z"
+				ts2[i].Route = r
+			}
+		}
+		if ts2.index("") < 0 {
+			// a default route always stays (with another target): a table without one is not a configuration
+			// any producer can have, and route resolution over such a map need not terminate
+			def := c.table[c.table.index("")].Route
+			def.Name += "y"
+			ts2 = ts2.with("", def)
+		}
+		for k := range mp {
+			delete(mp, k)
+		}
+		for _, r := range ts2 {
+			mp[r.Req] = r.Route
+		}
+		c.logf("%s: the caller changes the map it had passed to NewProducer, in place, to %s", phase, ts2)
+		// classification: would the changed configuration route a request of this case differently?
+		if p2, err := multidb.NewProducer(e.producers(), ts2.toMap(), recordsKey); err != nil {
+			callerMapInvalid = true
+		} else {
+			for _, req := range probes {
+				if p2.RouteOf(req) != routes[req] {
+					callerMapMoves = true
+				}
+			}
+		}
+		exactOnly := true
+		for _, r := range c.table {
+			if strings.ContainsRune(r.Req, '%') || strings.ContainsRune(r.Route.Name, '%') {
+				exactOnly = false
+			}
+		}
+		callerMapExactOnly = callerMapExactOnly || exactOnly
+		for _, req := range probes {
+			if r := cur.RouteOf(req); r != routes[req] {
+				t.Fatalf("C26: RouteOf(%q) of a running producer changed from %+v to %+v after the caller changed the map object it had "+
+					"passed to NewProducer (%s); routing must depend on the configuration at construction only\n%s", req, routes[req], r, phase, c)
+			}
+		}
+	}
+	// runSteps executes a history; before step mutAt (after the last step if mutAt == len(steps)) the
+	// caller's map mp is changed (mutAt < 0: never).
+	runSteps := func(steps []step, phase string, mutAt int, mp map[string]multidb.Route) {
+		for i, s := range steps {
+			if i == mutAt {
+				mutateCallerMap(mp, phase)
+			}
 			h := open(s.Req, phase)
 			if h != nil && s.Drop {
 				drop(h, phase)
 			}
 		}
+		if mutAt == len(steps) {
+			mutateCallerMap(mp, phase)
+		}
+	}
+	drawMutAt := func(steps []step, label string) int {
+		if !rapid.Bool().Draw(t, label) {
+			return -1
+		}
+		return rapid.IntRange(0, len(steps)).Draw(t, label+".at")
 	}
 	checkIsolation := func(phase string) {
 		for _, rec := range m.records {
@@ -960,9 +1054,13 @@ func routingProperty(t *rapid.T, wild bool, st *stats.Collector) {
 
 	// ---- 2a. first run of the node
 	cur = ps[0]
-	runSteps(c.steps, "first producer")
+	mutAt1 := drawMutAt(c.steps, "callerMapChangedFirstRun")
+	runSteps(c.steps, "first producer", mutAt1, psMaps[0])
 	checkIsolation("first producer")
 	checkRouteDeterminism(t, c, ps[:2], c.table, probes) // routing does not depend on what was opened
+	if err := cur.Verify(); err != nil {
+		t.Fatalf("C26: Verify() of the first producer (unchanged configuration) fails after its opens: %v\n%s", err, c)
+	}
 	dropBeforeRestart, reopenDroppedBeforeRestart = anyDrop, reopenDropped
 	reopenedFirst := reopened
 	recordedFirst := len(m.records)
@@ -975,7 +1073,7 @@ func routingProperty(t *rapid.T, wild bool, st *stats.Collector) {
 	if movedR {
 		nontrivial = true
 	}
-	ps1 := construct(t, c, e, c.table, 1)
+	ps1, ps1Maps := constructKeep(t, c, e, c.table, 1)
 	if len(ps1) != 1 {
 		t.Fatalf("C26: the table was accepted before the restart and is rejected after it\n%s", c)
 	}
@@ -984,8 +1082,14 @@ func routingProperty(t *rapid.T, wild bool, st *stats.Collector) {
 		t.Fatalf("C26: Verify() of a restarted producer with the unchanged table fails: %v\n%s", err, c)
 	}
 	dropsBefore := len(ghosts)
-	runSteps(c.steps2, "restarted producer")
+	mutAt2 := drawMutAt(c.steps2, "callerMapChangedAfterRestart")
+	runSteps(c.steps2, "restarted producer", mutAt2, ps1Maps[0])
 	checkIsolation("restarted producer") // re-opens every recorded request that steps2 did not open
+	for _, req := range probes {
+		if r := cur.RouteOf(req); r != routes[req] {
+			t.Fatalf("C26: RouteOf(%q) of the restarted producer is %+v, the same configuration routed it to %+v before\n%s", req, r, routes[req], c)
+		}
+	}
 	if recordedFirst > 0 {
 		classes = append(classes, "reopen_after_restart")
 	}
@@ -1030,6 +1134,27 @@ func routingProperty(t *rapid.T, wild bool, st *stats.Collector) {
 	if len(ghosts) > dropsBefore {
 		classes = append(classes, "drop_after_restart")
 	}
+	if mutAt1 >= 0 {
+		classes = append(classes, "caller_map_changed_first_run")
+		if mutAt1 < len(c.steps) {
+			classes = append(classes, "caller_map_changed_first_run_before_last_step")
+		}
+	}
+	if mutAt2 >= 0 {
+		classes = append(classes, "caller_map_changed_after_restart")
+	}
+	if mutAt1 >= 0 || mutAt2 >= 0 {
+		if callerMapMoves {
+			classes = append(classes, "caller_map_change_would_move_a_request")
+			nontrivial = true
+			if callerMapExactOnly {
+				classes = append(classes, "caller_map_change_would_move_a_request_exact_only_table")
+			}
+		}
+		if callerMapInvalid {
+			classes = append(classes, "caller_map_changed_to_invalid_table")
+		}
+	}
 
 	// ---- 4. another restart with a mutated table and Verify
 	shutdown()
@@ -1045,7 +1170,7 @@ func routingProperty(t *rapid.T, wild bool, st *stats.Collector) {
 	}
 
 	sort.Strings(classes)
-	st.Case(stats.Hash(c.table.String(), fmtSteps(c.steps), fmtSteps(c.steps2), c.kind, tableR.String(), table2.String()), nontrivial, classes...)
+	st.Case(stats.Hash(c.table.String(), fmtSteps(c.steps), fmtSteps(c.steps2), c.kind, tableR.String(), table2.String(), mutAt1, mutAt2, strings.Join(c.log, "|")), nontrivial, classes...)
 	st.Class("opens_recorded", int64(opensRecorded))
 	st.Class("databases_dropped", int64(len(ghosts)))
 	st.Sample(func() interface{} {
